@@ -34,6 +34,9 @@ pub struct CaseSrc {
     pub code: String,
     /// entry in the case table (`Case { .. }`) or other per-case registration line
     pub table: String,
+    /// line (relative to the start of `code`) at which the reference side of a differential case
+    /// starts: compile errors from there on are generator bugs, not violations
+    pub ref_from: Option<usize>,
 }
 
 pub struct Batch {
@@ -44,12 +47,16 @@ pub struct Batch {
     pub bins: Vec<Vec<usize>>,
     /// (bin, first line, last line) per case idx
     pub lines: BTreeMap<usize, (usize, usize, usize)>,
+    /// absolute first line of the reference side per case idx
+    pub ref_lines: BTreeMap<usize, usize>,
     pub features: Vec<String>,
 }
 
 pub struct BuildOutcome {
     /// case idx -> compiler messages
     pub failed_cases: BTreeMap<usize, Vec<String>>,
+    /// case idx -> compiler messages located in the reference side (generator bug)
+    pub failed_ref: BTreeMap<usize, Vec<String>>,
     /// errors that could not be attributed to a case
     pub other_errors: Vec<String>,
     pub ok: bool,
@@ -100,6 +107,7 @@ pub fn write_batch(spec: &BatchSpec) -> Batch {
     let nbins = spec.nbins.min(live.len()).max(1);
     let mut bins: Vec<Vec<usize>> = vec![Vec::new(); nbins];
     let mut lines = BTreeMap::new();
+    let mut ref_lines = BTreeMap::new();
     for b in 0..nbins {
         let mine: Vec<&CaseSrc> = live.iter().enumerate().filter(|(i, _)| i % nbins == b).map(|(_, c)| *c).collect();
         let mut src = String::from(spec.header);
@@ -107,6 +115,9 @@ pub fn write_batch(spec: &BatchSpec) -> Batch {
         for c in &mine {
             let nl = c.code.matches('\n').count();
             lines.insert(c.idx, (b, line, line + nl));
+            if let Some(r) = c.ref_from {
+                ref_lines.insert(c.idx, line + r);
+            }
             src.push_str(&c.code);
             if !c.code.ends_with('\n') {
                 src.push('\n');
@@ -117,7 +128,7 @@ pub fn write_batch(spec: &BatchSpec) -> Batch {
         src.push_str(&(spec.main)(&mine));
         fs::write(dir.join(format!("src/bin/{}_b{:02}.rs", spec.pkg, b)), src).unwrap();
     }
-    Batch { dir, pkg: spec.pkg.to_string(), nbins, bins, lines, features: vec![] }
+    Batch { dir, pkg: spec.pkg.to_string(), nbins, bins, lines, ref_lines, features: vec![] }
 }
 
 impl Batch {
@@ -133,6 +144,7 @@ impl Batch {
             .output()
             .expect("cargo build");
         let mut failed_cases: BTreeMap<usize, Vec<String>> = BTreeMap::new();
+        let mut failed_ref: BTreeMap<usize, Vec<String>> = BTreeMap::new();
         let mut other = Vec::new();
         let stdout = String::from_utf8_lossy(&out.stdout);
         for l in stdout.lines() {
@@ -157,7 +169,11 @@ impl Batch {
                     if let Some(bn) = file.strip_prefix(&format!("src/bin/{}_b", self.pkg)).and_then(|s| s.strip_suffix(".rs")).and_then(|s| s.parse::<usize>().ok()) {
                         for (idx, (b, lo, hi)) in &self.lines {
                             if *b == bn && ln >= *lo && ln <= *hi {
-                                failed_cases.entry(*idx).or_default().push(format!("{} (line {})", text, ln - lo + 1));
+                                if self.ref_lines.get(idx).map(|r| ln >= *r).unwrap_or(false) {
+                                    failed_ref.entry(*idx).or_default().push(format!("{} (line {})", text, ln - lo + 1));
+                                } else {
+                                    failed_cases.entry(*idx).or_default().push(format!("{} (line {})", text, ln - lo + 1));
+                                }
                                 attributed = true;
                             }
                         }
@@ -172,7 +188,11 @@ impl Batch {
         if !ok && failed_cases.is_empty() && other.is_empty() {
             other.push(String::from_utf8_lossy(&out.stderr).chars().rev().take(3000).collect::<String>().chars().rev().collect());
         }
-        BuildOutcome { failed_cases, other_errors: other, ok }
+        // a case whose reference side does not compile is a generator bug, whatever its macro side does
+        for k in failed_ref.keys() {
+            failed_cases.remove(k);
+        }
+        BuildOutcome { failed_cases, failed_ref, other_errors: other, ok }
     }
 
     pub fn bin_path(&self, b: usize) -> PathBuf {
@@ -260,4 +280,58 @@ pub fn run_one(path: &Path, env: &[(String, String)], timeout_s: u64) -> Result<
     let err = t2.join().unwrap_or_default();
     let tail: String = err.chars().rev().take(1500).collect::<String>().chars().rev().collect();
     Ok((out.lines().map(|s| s.to_string()).collect(), tail, status))
+}
+
+
+pub struct BatchResult {
+    pub reports: Vec<Value>,
+    pub compile_fail: BTreeMap<usize, Vec<String>>,
+    pub ref_fail: BTreeMap<usize, Vec<String>>,
+    pub infra: Vec<String>,
+}
+
+/// Generic flow: write, build (dropping cases that do not compile and rebuilding), run.
+pub fn build_and_run_src(
+    pkg: &str,
+    header: &str,
+    cases: &[CaseSrc],
+    main: &dyn Fn(&[&CaseSrc]) -> String,
+    env: &[(String, String)],
+    features: &[&str],
+    extra_deps: &str,
+    timeout_s: u64,
+    nbins: usize,
+) -> BatchResult {
+    let mut skip: BTreeSet<usize> = BTreeSet::new();
+    let mut compile_fail: BTreeMap<usize, Vec<String>> = BTreeMap::new();
+    let mut ref_fail: BTreeMap<usize, Vec<String>> = BTreeMap::new();
+    let mut infra = Vec::new();
+    for _round in 0..5 {
+        let spec = BatchSpec { pkg, header, cases, main, nbins, jvrt_features: features, extra_deps, skip: &skip };
+        let b = write_batch(&spec);
+        let bo = b.build();
+        if !bo.failed_cases.is_empty() || !bo.failed_ref.is_empty() {
+            for (k, v) in bo.failed_cases {
+                skip.insert(k);
+                compile_fail.insert(k, v);
+            }
+            for (k, v) in bo.failed_ref {
+                skip.insert(k);
+                ref_fail.insert(k, v);
+            }
+            if skip.len() >= cases.len() {
+                break;
+            }
+            continue; // rebuild without the failing cases so the search continues
+        }
+        if !bo.ok {
+            infra.push(format!("build failed without attributable case: {}", bo.other_errors.join(" | ").chars().take(2000).collect::<String>()));
+            return BatchResult { reports: vec![], compile_fail, ref_fail, infra };
+        }
+        let (reports, inf) = b.run(env, timeout_s);
+        infra.extend(inf);
+        let _ = std::fs::remove_dir_all(&b.dir);
+        return BatchResult { reports, compile_fail, ref_fail, infra };
+    }
+    BatchResult { reports: vec![], compile_fail, ref_fail, infra }
 }
